@@ -36,7 +36,7 @@ def plan(tier):
 # ------------------------------------------------------------------------------------------------
 # model-level edits (textual, on one file)
 
-DECL = re.compile(r"^(\s*)(integer|real|type\([\w$]+\))([^:\n]*)::\s*([A-Za-z_][\w$]*)\s*$", re.I)
+DECL = re.compile(r"^(\s*)(integer|real|logical|complex|type\([\w$]+\)|class\([\w$*]+\))([^:\n]*)::\s*([A-Za-z_][\w$]*)\s*$", re.I)
 PROC = re.compile(r"^(\s*)(subroutine|function)\s+([A-Za-z_][\w$]*)", re.I)
 TYPEDEF = re.compile(r"^(\s*)type\b[^(\n]*::\s*([A-Za-z_][\w$]*)\s*$", re.I)
 MODULE = re.compile(r"^(\s*)module\s+([A-Za-z_][\w$]*)\s*$", re.I)
@@ -245,8 +245,72 @@ def minimise(initial, events, args, seed, per_file, key0):
     return cur
 
 
+def scripted_edits():
+    """complete list of (file, kind, old name) over the hand-written dependency files: every declared name renamed, every declaration line removed"""
+    out = []
+    for f in sorted(B.EXTRA_FILES):
+        if not f.endswith((".f90", ".F90")):
+            continue
+        for k, line in enumerate(B.EXTRA_FILES[f].split("\n")):
+            m = DECL.match(line) or PROC.match(line) or TYPEDEF.match(line)
+            if m:
+                out.append((f, "rename", m.group(m.lastindex), k))
+                if DECL.match(line):
+                    out.append((f, "remove-line", m.group(m.lastindex), k))
+    return out
+
+
+def scripted_case(ctx, i, rng, res):
+    """one edit of one hand-written file (the provider of a submodule, generic interface, binding, include or macro), saved; then every
+    identifier of every hand-written file is queried on the long-lived and on fresh servers"""
+    f, kind, name, k = scripted_edits()[i]
+    initial = dict(B.EXTRA_FILES)
+    text = initial[f]
+    if kind == "rename":
+        new = re.sub(rf"(?<![\w$]){re.escape(name)}(?![\w$])", name + "_sv", text)
+    else:
+        ls = text.split("\n")
+        del ls[k]
+        new = "\n".join(ls)
+    incremental = rng.random() < 0.5
+    args = ["--incremental_sync"] if incremental else []
+    events = []
+    others = sorted(x for x in initial if x != f and x.endswith((".f90", ".F90")))
+    for o in rng.sample(others, min(len(others), 3)):
+        events.append(("open", o))
+    qt = text.split("\n")
+    for _ in range(4):
+        cand = [(ln, m.start() + 1) for ln, l in enumerate(qt) for m in re.finditer(r"[A-Za-z_]\w*", l.split("!")[0])]
+        ln, col = rng.choice(cand)
+        events.append(("query", f, ln, col))
+    events.append(("open", f))
+    for chs in as_changes(rng, text, new, incremental):
+        events.append(("change", f, chs))
+    events.append(("save", f, new))
+    if rng.random() < 0.5:
+        events.append(("close", f))
+    res.kind("class:scripted:" + kind)
+    seed = rng.randrange(10 ** 6)
+    final, diffs, skipped, compared = execute(initial, events, args, seed, 400, nthreads=rng.choice([1, 2]))
+    if diffs is None:
+        res.inconclusive.append("fresh server failed")
+        return res
+    res.count("evaluations", compared)
+    res.seen("scripted", f, kind, name)
+    seen_kinds = set()
+    for kk, desc in diffs:
+        if kk[0] in seen_kinds:
+            continue
+        seen_kinds.add(kk[0])
+        res.violation(diff_key(kk), f"scripted {kind} of {name} in {f}: battery entry {kk}: {desc}",
+                      {"initial": initial, "events": events, "args": args, "seed": seed, "per_file": 400, "entry": [str(x) for x in kk]})
+    return res
+
+
 def run_case(ctx, i, rng):
     res = Result()
+    if i < len(scripted_edits()):
+        return scripted_case(ctx, i, rng, res)
     w = M.gen_workspace(rng, style=None)
     w2 = M.gen_workspace(rng, style=None)
     initial = dict(w.files)
@@ -279,6 +343,9 @@ def run_case(ctx, i, rng):
                 buf[f] = disk[f]
         elif r < 0.6 and srcs:
             f = rng.choice(srcs)
+            xs = [x for x in srcs if x in B.EXTRA_FILES]
+            if xs and rng.random() < 0.35:
+                f = rng.choice(xs)  # the hand-written files are few but carry the cross-file dependencies (submodule, generic, bindings, includes)
             if f not in buf:
                 events.append(("open", f))
                 buf[f] = disk[f]
